@@ -3,6 +3,7 @@ package main
 // Symbolic execution of go/ssa functions into verification conditions.
 
 import (
+	"os"
 	"fmt"
 	"go/ast"
 	"go/constant"
@@ -71,6 +72,7 @@ type fnExec struct {
 	strIDs   map[string]int
 	wfSeen     map[int]bool
 	modelNames map[string]string // defined name -> readable term, for model output
+	lastRes    map[string]Val  // result of the most recent call per callee (ghost lastBool)
 	caseSub    map[*Term]*Term // case split in force while building a query
 	caseAssert *Term
 	instLevel  int // 0: no instances of quantified hypotheses, 1: goal terms only, 2: full
@@ -519,6 +521,9 @@ func findLoops(fn *ssa.Function) map[*ssa.BasicBlock]*loopInfo {
 	})
 	for i, li := range hs {
 		li.ordinal = i + 1
+		if os.Getenv("SCTPVC_LOOPS") != "" && fn.Prog != nil {
+			fmt.Fprintf(os.Stderr, "LOOP %s #%d header=block %d at %s\n", fn.Name(), i+1, li.header.Index, fn.Prog.Fset.Position(pos[li]))
+		}
 	}
 	return loops
 }
